@@ -518,6 +518,13 @@ func RunFull(c *gen.Ctx, prop string, cfgs []xeng.Config, nops, perOp int, singl
 		}
 		meta.Notes = append(meta.Notes, fmt.Sprintf("%d executions of a list one of whose element goroutines panics inside generated code beside its siblings, the same request 16 times per configuration: one response every time (thorough: under the race detector)", nstray))
 	}
+	if schedules {
+		nre, err := resolverExtensions(meta, c.Thorough())
+		if err != nil {
+			return err
+		}
+		meta.Notes = append(meta.Notes, fmt.Sprintf("%d executions in which every resolver call registers a response extension of its own beside its concurrently resolved siblings: one extension per call in the response", nre))
+	}
 	for _, rep := range xeng.Races {
 		meta.Direct = append(meta.Direct, gen.DirectFinding{Signature: "data-race-reported", What: "the Go race detector reported a data race in the generated executor / runtime", Replay: map[string]any{"report": rep}})
 	}
